@@ -112,9 +112,16 @@ func fnvAddBytes(h uint64, b []byte) uint64 {
 // Main is called from each world's TestMain.
 func Main(m *testing.M, property, world string, components map[string]string) {
 	col.start = time.Now()
+	declaredP, declaredF := col.cov.Probes, col.cov.Faults
 	col.cov = Coverage{Property: property, World: world, Tier: Tier(),
 		Faults: map[string]int64{}, Probes: map[string]int64{}, Counters: map[string]int64{},
 		KnownHits: map[string]int64{}, Components: components}
+	for k := range declaredP {
+		col.cov.Probes[k] = 0
+	}
+	for k := range declaredF {
+		col.cov.Faults[k] = 0
+	}
 	col.sigs = map[uint64]struct{}{}
 	col.sets = map[string]map[string]struct{}{}
 	col.digest = fnvOff
